@@ -12,6 +12,21 @@ def hook_commits():
         return []
 
 CHECKS = {
+ "C04": dict(
+    category="exploration", design_ref="DESIGN.md §4 C04",
+    technique="exactly-once monitor over the recorded connection log: responses per unique reply inbox counted after the request.done hook, across generated handler behaviour scripts; concurrent runs under the Go race detector",
+    text="Delivers requests of every type to a real Service on a recording connection while harness handlers execute behaviour scripts (every script of <=2 actions over a ~45-action alphabet per type: all reply methods incl. unmarshalable values, second replies, Timeout, events, nested Value/RequireValue, 9 panic kinds, meta; random scripts up to length 5; all payload kinds; missing resources/handlers/methods; deprecated new with and without New handler) and counts non-pre-response messages per reply inbox once the request.done hook fired; a probe request after each script shows the service is still up; the same scripts run concurrently on 1-32 workers (also under -race). Held on the scripts executed.",
+    note="Finality of a missing reply relies on the verif hook request.done; an access request with malformed payload to a pattern without access handler may or may not be answered."),
+ "C05": dict(
+    category="exploration", design_ref="DESIGN.md §4 C05",
+    technique="reference-model monitor: invoked handler closure, request accessors and response code diffed against an independent dispatcher model per request",
+    text="Random handler sets over dotted, method-like patterns are served by a real Service; every (type, resource, method) combination and every subset of the nine payload fields (exhaustive, with hostile strings) is sent; the handler closure records its identity and everything the request object exposes, and the response is compared with a reference dispatcher (documented split rule, reference router, method -> * -> not found, new prefers New) and with the deterministic outcome mapping (Error/panic with *res.Error verbatim, anything else system.internalError).",
+    note="Sequential requests (input-space property); where two error conditions coincide either documented code is accepted; JSON null params/token are not compared."),
+ "C07": dict(
+    category="exploration", design_ref="DESIGN.md §4 C07",
+    technique="online protocol validator over every message on the recording connection (independent parser written from the RES protocol document)",
+    text="Every message published by the real Service during all C04 workloads (all request types, behaviour scripts, payloads, concurrent load) and during a generator of service-level publishing (Reset/ResetAll/TokenEvent/TokenEventWithID/TokenReset with hostile values and every connection-id character class, resource events with unmarshalable values, query events and query responses) is classified by subject form and its payload checked against the documented shape; unmarshalable reply values must yield a system.internalError response. The run is inconclusive unless every documented message form was observed.",
+    note="Validator in harness/internal/ref/protocol.go is the trusted base; value-level rules the library does not control are not asserted; token events for requests without cid are outside the quantifier and skipped."),
  "C06": dict(
     category="exploration", design_ref="DESIGN.md §4 C06",
     technique="reference-model monitor + metamorphic arrangement check: every Mux.GetHandler result diffed against a brute-force most-specific-match router over bounded-exhaustive and random pattern sets in 7 Mount/Route arrangements",
